@@ -377,6 +377,9 @@ func (f *replicaFam) op(a []string) (out string) {
 		f.run()
 		return f.flush()
 	case "wire":
+		if len(a) == 3 && a[1] == "requestblock" {
+			return f.requestBlock(a[2], kv)
+		}
 		// wire <propose|vote|timeout|newview> <object> [<block>] from=<id> [drop=<f1,f2,...>] :
 		// ToProto, field removal on the proto message, real Marshal/Unmarshal, the real gorums handler
 		if len(a) < 3 {
@@ -444,6 +447,45 @@ func (f *replicaFam) op(a []string) (out string) {
 		return f.flush()
 	}
 	return f.wireFam.op(a)
+}
+
+// requestBlock sends a BlockHash request of any length through the real gorums handler.
+//
+//	wire requestblock blk:<name>[/<len>] | nil | empty
+func (f *replicaFam) requestBlock(spec string, kv map[string]string) string {
+	var req *hotstuffpb.BlockHash
+	switch {
+	case spec == "nil":
+	case spec == "empty":
+		req = &hotstuffpb.BlockHash{}
+	case strings.HasPrefix(spec, "blk:"):
+		p := strings.Split(spec[4:], "/")
+		b, ok := f.blocks[p[0]]
+		if !ok || len(p) > 2 {
+			return "bad-op"
+		}
+		h := b.Hash()
+		hb := h[:]
+		if len(p) == 2 {
+			l, err := strconv.Atoi(p[1])
+			if err != nil || l < 0 || l > 64 {
+				return "bad-op"
+			}
+			for len(hb) < l {
+				hb = append(hb, 0xAB)
+			}
+			hb = hb[:l]
+		}
+		req = wire(&hotstuffpb.BlockHash{Hash: hb}, &hotstuffpb.BlockHash{})
+	default:
+		return "bad-op"
+	}
+	got, err := f.svc.RequestBlock(f.peerCtx(kv), req)
+	ans := "notfound"
+	if err == nil && got != nil {
+		ans = "block(" + f.hashName(hotstuffpb.BlockFromProto(got).Hash()) + ")"
+	}
+	return fmt.Sprintf("reqblock(%s) | %s", ans, f.dump())
 }
 
 // startLeader mirrors Synchronizer.Start without starting wall-clock timers.
